@@ -282,6 +282,10 @@ type HookCtl struct {
 }
 
 type hold struct {
+	after    string // if set: hold the first arrival that follows the afterNth arrival at this other point
+	afterNth int
+	afterCnt int
+	armed    bool
 	nth     int // hold the n-th arrival (1-based); 0 = first
 	seen    int
 	reached chan struct{}
@@ -300,14 +304,29 @@ func (h *HookCtl) point(name string) {
 	h.log.Add(vh.Event{Src: "hook", Kind: "hit", Op: name})
 	h.mu.Lock()
 	h.arrived[name]++
+	for _, o := range h.holds {
+		if o.after == name && !o.armed && !o.used {
+			o.afterCnt++
+			if o.afterCnt == o.afterNth {
+				o.armed = true
+			}
+		}
+	}
 	hd := h.holds[name]
 	d := h.delays[name]
 	var wait *hold
 	if hd != nil && !hd.used {
-		hd.seen++
-		if hd.nth == 0 || hd.seen == hd.nth {
-			hd.used = true
-			wait = hd
+		if hd.after != "" {
+			if hd.armed {
+				hd.used = true
+				wait = hd
+			}
+		} else {
+			hd.seen++
+			if hd.nth == 0 || hd.seen == hd.nth {
+				hd.used = true
+				wait = hd
+			}
 		}
 	}
 	h.mu.Unlock()
@@ -331,6 +350,14 @@ func (h *HookCtl) Hold(name string, nth int) {
 	h.mu.Lock()
 	defer h.mu.Unlock()
 	h.holds[name] = &hold{nth: nth, reached: make(chan struct{}), release: make(chan struct{})}
+}
+
+// HoldAfter arranges for the first arrival at name that follows the nth arrival at the point
+// after to block (both points lie on one goroutine's path: the events watcher's).
+func (h *HookCtl) HoldAfter(name, after string, nth int) {
+	h.mu.Lock()
+	defer h.mu.Unlock()
+	h.holds[name] = &hold{after: after, afterNth: nth, reached: make(chan struct{}), release: make(chan struct{})}
 }
 
 // Delay makes every arrival at name sleep d.
